@@ -283,7 +283,21 @@ def pointer_high_octet(P, D, s, prop=None):
     return None
 
 
-PATTERNS = [host_offset, index_from_own_enumeration, forward_route_first_server, pointer_high_octet]
+def checksum_addend(P, D, s, prop=None):
+    """sum += <a 16-bit word> in the Internet checksum: at most 32768 words of at most 16 bits per buffer of at most 65535 octets fit
+    the 32-bit accumulator, however the word is put together (C12.R7 checks that every addend is at most 16 bits wide)"""
+    if s.kind != "overflow" or s.what != "Overflow(Add)" or not s.body.id.split("::{")[0].endswith("erbium_net::packet::partial_netsum"):
+        return None
+    pr = D.prover(s.body)
+    n = len(s.body.blocks[s.bb]["stmts"])
+    ws = sorted(bit_width(pr.T.operand(o, s.bb, n)) for o in s.ops[:2])
+    if ws[0] <= 16 and ws[1] == 32:
+        return {"class": "internal", "requires": ("C12.R7",), "pattern": "checksum-addend",
+                "why": "sum of at most 32768 16-bit words per buffer of at most 65535 octets fits u32"}
+    return None
+
+
+PATTERNS = [host_offset, index_from_own_enumeration, forward_route_first_server, pointer_high_octet, checksum_addend]
 
 
 def match(P, D, s, prop):
